@@ -263,7 +263,7 @@ e1.register('c16', factory)
 def run(tier, seed, result):
     notes = []
     closure = True
-    cap = 2 if tier == 'quick' else 3
+    cap = 2
     for is_async in (False, True):
         params = dict(is_async=is_async, cap=cap, seed=seed)
         if tier == 'quick':
